@@ -29,6 +29,7 @@ type tracker struct {
 	genEnd            int
 	panicIn           string // "Name" | "Authenticate" | "Generate"
 	emptyGenerate     bool
+	emptyNonNil       bool // the empty result is an empty, non-nil slice
 	keys              []*trackedKey
 	wrapKeys          bool
 	keyPanic          string // "CSRs" | "AddCertsToAgent"
@@ -59,6 +60,9 @@ func (t *tracker) Generate(p *csr.ReqParam) ([]csr.AgentKey, error) {
 		panic("scripted panic in Generate")
 	}
 	if t.emptyGenerate {
+		if t.emptyNonNil {
+			return []csr.AgentKey{}, nil
+		}
 		return nil, nil
 	}
 	ks, err := t.inner.Generate(p)
@@ -370,7 +374,7 @@ func main() {
 				})
 			}
 			// panics in handler / agent-key methods, empty and failing Generate
-			for _, m := range []string{"Name", "Authenticate", "Generate", "CSRs", "AddCertsToAgent", "empty-generate", "failing-generate"} {
+			for _, m := range []string{"Name", "Authenticate", "Generate", "CSRs", "AddCertsToAgent", "empty-generate", "empty-generate-non-nil", "failing-generate"} {
 				c := r.Case("fault", idx)
 				idx++
 				if c == nil {
@@ -378,7 +382,7 @@ func main() {
 				}
 				rec := faultRec{Shape: sh, Fault: "panic-in-" + m, Stage: "panic", Frames: N, Signs: S}
 				switch m {
-				case "empty-generate":
+				case "empty-generate", "empty-generate-non-nil":
 					rec.Fault, rec.Stage = m, "generation"
 				case "failing-generate":
 					if sh.Real {
@@ -394,6 +398,8 @@ func main() {
 						tr.keyPanic = m
 					case "empty-generate":
 						tr.emptyGenerate = true
+					case "empty-generate-non-nil":
+						tr.emptyGenerate, tr.emptyNonNil = true, true
 					case "failing-generate":
 						tr.inner.(*stubHandler).fail = true
 					}
@@ -557,7 +563,7 @@ func judge(r *ev.Run, c *ev.Case, e *env, sh shape, rec faultRec, inject func(*w
 	}
 	if runErr == nil {
 		// nil is acceptable only if the fault had no bearing and everything was delivered
-		if rec.Fault == "garbage" || rec.Fault == "failure" || rec.Fault == "wrong-type" || rec.Fault == "close" || rec.Fault == "oversized" || rec.Fault == "truncated" || strings.HasPrefix(rec.Fault, "signer-") || strings.HasPrefix(rec.Fault, "context-ends-") || strings.HasPrefix(rec.Fault, "panic-in-") || rec.Fault == "empty-generate" || rec.Fault == "failing-generate" {
+		if rec.Fault == "garbage" || rec.Fault == "failure" || rec.Fault == "wrong-type" || rec.Fault == "close" || rec.Fault == "oversized" || rec.Fault == "truncated" || strings.HasPrefix(rec.Fault, "signer-") || strings.HasPrefix(rec.Fault, "context-ends-") || strings.HasPrefix(rec.Fault, "panic-in-") || rec.Fault == "empty-generate" || rec.Fault == "empty-generate-non-nil" || rec.Fault == "failing-generate" {
 			r.Violation(c, "fault-ends-in-success:"+sig, fmt.Sprintf("Run returned nil although %s was injected at index %d (%s stage)", rec.Fault, rec.At, rec.Stage), rec)
 			return
 		}
